@@ -1358,7 +1358,34 @@ def r06_23(ctx: Ctx, rule: str = "R06.23") -> None:
                       f"`{norm(a_)}` is not `self.src_start + positions[...]`: the folder task is given a window that does not start where the packed area starts", construct="window arithmetic")
 
 
+# library knowledge: the decoder object that reads EVERYTHING the coder's format allows in one packed stream
+STREAM_DECODERS = {"ZstdDecompressor": ("pyzstd", "EndlessZstdDecompressor",
+                                        "Zstandard data is one or more frames, skippable frames included (RFC 8878; the multi-threaded 7-Zip-zstd builds write several per "
+                                        "stream): pyzstd.ZstdDecompressor stops behind the first frame and raises EOFError on the next call")}
+
+
+def r06_30(ctx: Ctx, rule: str = "R06.30") -> None:
+    """a packed stream is decoded to its end, whatever legal internal structure it has: the wrapper classes build the library decoder that
+    continues across the units the format allows to be concatenated (table STREAM_DECODERS)."""
+    n = 0
+    for cname, (lib, want, why) in sorted(STREAM_DECODERS.items()):
+        if not ctx.prog.has_cls(cname):
+            continue
+        cls = ctx.prog.cls(cname, "compressor")
+        ini = cls.methods.get("__init__")
+        ctx.need(ini is not None, f"{cname}.__init__ vanished")
+        mk = [c for c in q.calls(ini) if (dotted(c.func) or "").startswith(lib + ".") and (dotted(c.func) or "").endswith("Decompressor")]
+        ctx.floor(rule, len(mk), 1, f"{lib} decoder constructions in {cname}.__init__")
+        for c in mk:
+            n += 1
+            ctx.check(dotted(c.func) == f"{lib}.{want}", rule, ini, c, f"{cname} builds {lib}.{want}",
+                      f"`{norm(c)}`: {why} - a folder whose packed stream holds more than one unit cannot be extracted or tested although the archive is valid",
+                      construct=f"{cname} single-unit decoder")
+    ctx.floor(rule, n, 1, "stream decoder constructions checked")
+
+
 def run(ctx: Ctx) -> None:
+    r06_30(ctx)
     from . import c04 as _c04s
     _c04s.r04_18(ctx, rule="R06.25")  # the decoder's predicates say what their names say
     r06_23(ctx)
